@@ -70,6 +70,7 @@ struct RunCtl
     bool user_durable = false;  // scripted callback stores the text durably (file model)
     bool user_stateful = false; // the scripted callback counts its own invocations (state inside the functor)
     bool nested = false;        // the integrand runs a small nested integration on some calls
+    bool two_jobs = false;      // split world: the second half runs another integration (other seed, own file)
     double fs_yield_p = 0;      // MPI: probability that a rank is descheduled before a file system call
     bool params_from_chkpt = false;   // continued runs take the distribution parameters from the last result
     bool base_typed = false;    // built-in callback instantiated with the checkpoint's base class (no generators)
